@@ -3,5 +3,6 @@ CONSTANTS
   ResetOnSkip = TRUE
   MaxLen = 4
   Alpha <- AlphaQuick
+  Sweep = TRUE
   Export = TRUE
 INVARIANTS PropsOK TicksAsDocumented RunningIsDirect ExportInv
